@@ -168,40 +168,66 @@ def rule_memo(ctx, r, wrapper_name):
     r.check(ret_cache, ocon + "::result", "returns the status map of the visited cone", "schedule() does not return the status map it built", outer.where)
 
 
+class SelSem(Semantics):
+    """Which expression selects the endpoints, depending on whether target patterns were given."""
+
+    def __init__(self, ctx, finfo, sinks):
+        super().__init__(ctx.index, finfo)
+        from ..astutil import single_assignments
+        self.sinks = sinks
+        self.found = []
+
+    def domain(self, text):
+        return ("EMPTY", "NONEMPTY") if text == "targets" else None
+
+    def truthy(self, v):
+        return v == "NONEMPTY"
+
+    def may_raise(self, node, state):
+        return []
+
+    def effect(self, node, state):
+        if isinstance(node, tuple):
+            return state
+        if isinstance(node, ast.Assign) and len(node.targets) == 1 and isinstance(node.targets[0], ast.Name):
+            state = state.with_fact("val:" + node.targets[0].id, ast.unparse(node.value))
+        for c in _calls(node) if isinstance(node, ast.AST) else []:
+            cn = self.index.canon(c.func, self.module) if isinstance(c.func, (ast.Name, ast.Attribute)) else None
+            if cn in self.sinks and c.args:
+                a = c.args[0]
+                txt = state.facts.get("val:" + a.id, a.id) if isinstance(a, ast.Name) else ast.unparse(a)
+                self.found.append((state.vars.get("targets", frozenset(["EMPTY", "NONEMPTY"])), txt, c))
+        return state
+
+    def assign(self, target_text, value_expr, state):
+        return None
+
+
 def rule_cone_selection(ctx, r):
     idx = ctx.index
     for key, what in (("gwf.plugins.run:run", "run"), ("gwf.plugins.touch:touch", "touch")):
         f = idx.func(key)
         con = f"{f.module.relpath}::{f.qual}::endpoints"
-        tparam = "targets"
-        sel = None
-        for n in walk_no_nested(f.node):
-            if isinstance(n, ast.Assign) and isinstance(n.targets[0], ast.Name) and n.targets[0].id == "endpoints":
-                sel = n.value
-        if sel is None:
-            # maybe passed inline
-            for c in _calls(f.node):
-                if idx.canon(c.func, f.module) in ("gwf.scheduling.submit_workflow", "gwf.plugins.touch.touch_workflow") and c.args:
-                    sel = c.args[0]
-        ok = False
-        why = "endpoint selection not found"
-        if isinstance(sel, ast.IfExp):
-            t = sel.test
-            body_ok = isinstance(sel.body, ast.Call) and idx.canon(sel.body.func, f.module) == "gwf.filtering.filter_names" and \
-                len(sel.body.args) == 2 and dotted(sel.body.args[1]) == tparam and dotted(sel.body.args[0]) == "graph"
-            else_ok = ast.unparse(sel.orelse) == "graph.endpoints()"
-            if dotted(t) == tparam and body_ok and else_ok:
-                ok = True
-            elif isinstance(t, ast.UnaryOp) and isinstance(t.op, ast.Not) and dotted(t.operand) == tparam and \
-                    ast.unparse(sel.body) == "graph.endpoints()" and isinstance(sel.orelse, ast.Call) and idx.canon(sel.orelse.func, f.module) == "gwf.filtering.filter_names":
-                ok = True
-            else:
-                why = f"selection is `{ast.unparse(sel)[:90]}`"
-        elif sel is not None:
-            why = (f"selection is `{ast.unparse(sel)[:90]}`: when patterns are given but match nothing the whole workflow is selected instead of nothing"
-                   if isinstance(sel, ast.BoolOp) else f"selection is `{ast.unparse(sel)[:90]}`")
-        r.check(ok, con, "filter_names(graph, targets) if targets else graph.endpoints()",
-                f"{what}: the cone is not `the targets matching the given patterns, or all endpoints when none are given` ({why})", f.where)
+        sem = SelSem(ctx, f, {"gwf.scheduling.submit_workflow", "gwf.plugins.touch.touch_workflow"})
+
+        class Ex(Explorer):
+            def _assign_targets(self, targets, value, state):
+                st = super()._assign_targets(targets, value, state)
+                if len(targets) == 1 and isinstance(targets[0], ast.Name) and value is not None:
+                    st = st.with_fact("val:" + targets[0].id, ast.unparse(value))
+                return st
+
+        Ex(sem).run(State())
+        sel = {}
+        for dom, txt, c in sem.found:
+            for d in dom:
+                sel.setdefault(d, set()).add(txt.replace('"', "'"))
+        ok = sel.get("NONEMPTY") == {"filter_names(graph, targets)"} and sel.get("EMPTY") == {"graph.endpoints()"}
+        why = f"with patterns given the endpoints are {sorted(sel.get('NONEMPTY', []))}, without patterns {sorted(sel.get('EMPTY', []))}"
+        if sel.get("EMPTY") and sel.get("EMPTY") != {"graph.endpoints()"} and any("or graph.endpoints()" in t for t in sel["EMPTY"]):
+            why += " (when patterns are given but match nothing the whole workflow is selected instead of nothing)"
+        r.check(ok, con, "filter_names(graph, targets) when patterns are given, graph.endpoints() otherwise",
+                f"{what}: the cone is not `the targets matching the given patterns, or all endpoints when none are given`: {why}", f.where)
     # filter_names is exactly NameFilter(patterns).apply(targets)
     fn = idx.func("gwf.filtering:filter_names")
     rets = [n for n in walk_no_nested(fn.node) if isinstance(n, ast.Return)]
@@ -229,30 +255,25 @@ def rule_cone_selection(ctx, r):
 
 
 def rule_id_lookup(ctx, r):
-    idx = ctx.index
-    sub = idx.func("gwf.backends.base:TrackingBackend.submit")
-    con = f"{sub.module.relpath}::{sub.qual}"
-    p = sub.positional_params()
-    deps_p = p[2]
-    comp = None
-    ids_var = None
-    for n in walk_no_nested(sub.node):
-        if isinstance(n, ast.Assign) and isinstance(n.value, (ast.ListComp,)) and isinstance(n.targets[0], ast.Name):
-            comp, ids_var = n.value, n.targets[0].id
-    ok = False
-    if comp is not None and len(comp.generators) == 1:
-        g = comp.generators[0]
-        v = g.target.id if isinstance(g.target, ast.Name) else None
-        ok = dotted(g.iter) == deps_p and not g.ifs and ast.unparse(comp.elt) == f"self._tracked_jobs[{v}.name]"
-    r.check(ok, con + "::ids", "every prerequisite target is translated to the job id tracked under its name (no filter)",
-            "the prerequisite targets are not all translated to their tracked job ids (filtered, sliced or looked up by another key)", sub.where)
-    passed = False
-    for c in _calls(sub.node):
-        if isinstance(c.func, ast.Attribute) and c.func.attr == "submit_target":
-            passed = len(c.args) >= 2 and dotted(c.args[0]) == p[1] and dotted(c.args[1]) == ids_var or \
-                any(k.arg in ("dependencies", "dependency_ids") and dotted(k.value) == ids_var for k in c.keywords)
-    r.check(passed, con + "::pass", "the whole id list is handed to ops.submit_target(target, ids)",
-            "ops.submit_target does not receive the target and the complete list of prerequisite ids", sub.where)
+    """TrackingBackend.submit evaluated on symbolic ids: every prerequisite target becomes the id tracked under its name, the whole
+    list reaches ops.submit_target together with the target, the returned id is recorded under the target's name and marked SUBMITTED."""
+    from .evalhelpers import eval_submit, S
+    from ..symeval import tok
+    res, err, m = eval_submit(ctx)
+    con = f"{m.module.relpath}::{m.qual}"
+    if err is not None:
+        r.violation(con + "::ids", f"submitting a target whose prerequisites A and B are tracked fails or cannot be followed: {err}", m.where)
+        return
+    captured, tracked, states = res
+    r.check(captured.get("ids") == [tok("ID_A"), tok("ID_B")] and captured.get("target") == "T", con + "::ids",
+            "prerequisites [A, B] -> [id tracked for A, id tracked for B] handed to ops.submit_target(target, ids)",
+            f"with prerequisites [A, B] tracked as id_A, id_B the scheduler is given {captured.get('ids')} for target {captured.get('target')}: the prerequisite ids must be "
+            "exactly the ids tracked under the prerequisites' names, all of them, in order", m.where)
+    r.check(tracked.get("T") == tok("NEW") and tracked.get("A") == tok("ID_A") and tracked.get("B") == tok("ID_B"), con + "::record",
+            "the id returned by the scheduler is recorded under the target's name (other entries untouched)",
+            f"after the submission the tracked table is {tracked}: the new id must replace the target's old entry and nothing else", m.where)
+    r.check(states.get(tok("NEW")) == S("SUBMITTED"), con + "::mark", "the new id is marked SUBMITTED in memory",
+            f"the new job id is not marked SUBMITTED after the submission (state table {states}): a later decision in the same run would submit the target again", m.where)
 
 
 def run(ctx):
